@@ -7,7 +7,7 @@ C16 line protocol (strings travel as hex of UTF-8, `-` = empty string).
   T <text> <type> <msg> <nl> <frame>*       same, plus the structured data the text was generated from:
         frame = file,lineno,func,src,anchor   (src `-` = no source line, anchor `!` = no marker line)
         nl = 1 when the text carries the interpreter's final newline
-      -> `... | wf=<WFtextA> gen=<toStringA data (+ "\n") = text>`
+      -> `... | wf=<WFtextA> gen=<toStringA data (+ "\n") = text> wfc=<WFtextA ∧ no markers ∧ no final newline → WFtext text>`
   L <limit|n> <type> <msg> <cp>*            cp = path,lineno,func,line  (what the interpreter hands over)
       -> `B=<ExceptionInfo.get_formatted> T=<TracebackInfo.from_traceback(tb, limit).get_formatted>
           S=<traceback.format_exception layout> P=<tbutils.print_exception output>
@@ -64,7 +64,11 @@ def handleT (toks : List String) : String :=
         | some ty, some ms, some fas =>
           let wf := WFtextA fas ty ms
           let gen := toStringA fas ty ms ++ (if nl = "1" then ['\n'] else [])
-          s!"{base} | wf={if wf then 1 else 0} gen={if gen = text then 1 else 0}"
+          -- completeness of the text-level predicate on generated texts: well-formed data rendered without
+          -- marker lines / final newline must satisfy WFtext
+          let plain := nl != "1" && fas.all fun fa => fa.1.src.isEmpty || fa.2.isNone
+          let wfc := !(wf && plain) || WFtext text
+          s!"{base} | wf={if wf then 1 else 0} gen={if gen = text then 1 else 0} wfc={if wfc then 1 else 0}"
         | _, _, _ => "bad-op"
       | _ => "bad-op"
 
